@@ -9,13 +9,17 @@
                   pkg/exec/eval_function.go (execDirectFunction, execMethodFunction)
                   pkg/exec/interpreter.go (LoadFile finder: name -> path)
 
-   The model follows the REPAIRED code (fixes/C15-1.patch, fixes/C15-2.patch):
+   The model follows the REPAIRED code (fixes/C15-1.patch, fixes/C15-2.patch, the method-home repair C15-3):
      C15-1  evalImportStmt records the edge importer -> imported also when the imported module is already
             registered (the pinned code records edges only in AddModule, so the edge closing a cycle was never seen);
      C15-2  FindElement / FindElementWithModule consult the current module's export table for every name that is
             not a local symbol, before the imported names (the pinned code pops a module's own methods/types from
             its symbol stack when its body ends, so an imported method could not reach its home module's other
-            methods and types).
+            methods and types);
+     C15-3  a method value records the module it was defined in (compileFunction: SetModule(current module)) and
+            execDirectFunction runs the call frame in THAT module, whatever the name the method is called by (the code
+            before the repair used the module reported for the NAME, so an imported method kept in a variable of the
+            importer, 令算 = 求, ran in the importer's module and could not see its home module's other methods).
 
    Abstractions (stated, validated by the per-run differential check):
      - a module source is abstracted to its import statements, its top-level method/type definitions and the list of
@@ -102,7 +106,8 @@ Inductive stmt :=
 | SRef (x : name)                    (* x                                     evaluate a name (is it visible?) *)
 | SAssign (x : name)                 (* x = 1 *)
 | SDeclare (x : name)                (* 令x = 1 *)
-| SNewCall (x c m : name).           (* 令x = （新建c） ; 以x（m）            create an object and call a method *)
+| SNewCall (x c m : name)            (* 令x = （新建c） ; 以x（m）            create an object and call a method *)
+| SAlias (x f : name).               (* 令x = f                               a variable holding the value of a name *)
 
 Inductive def :=
 | DFun (n : name) (body : list stmt)                       (* 如何n？ *)
@@ -129,7 +134,7 @@ Fixpoint lib_find (ls : libraries) (n : name) : option (list name) :=
 (* ------------------------------------------------------------------ values, scopes, VM *)
 
 Inductive value :=
-| VFun (body : list stmt)
+| VFun (home : nat) (body : list stmt)      (* a method and the module it was defined in (Function.module) *)
 | VClass (cn : name) (methods : list (name * list stmt))
 | VObj (cn : name) (methods : list (name * list stmt))
 | VNum
@@ -429,15 +434,26 @@ Definition exec_stmt_with (callee : vm -> list stmt -> res * vm) (st : vm) (s : 
       match find_with_module st f with
       | None => (Err E_NameNotDefined, st)
       | Some (v, m) =>
-          let st1 := push_frame st m in
+          (* a method runs on a frame of the module it was defined in, whatever the name it is called by (C15-3);
+             any other value: the frame of the module reported for the name is pushed, then the type assertion fails *)
           match v with
-          | VFun body =>
+          | VFun h body =>
+              let st1 := push_frame st h in
               let '(r, st2) := in_exec_block st1 None (fun s => callee s body) in
               match r with
               | Ok => (Ok, pop_frame st2)
               | other => (wrap_exc other, st2)
               end
-          | _ => (Err E_InvalidFuncVariable, st1)
+          | _ => (Err E_InvalidFuncVariable, push_frame st m)
+          end
+      end
+  | SAlias x f =>                                         (* evalVarDeclareStmt: the value of the name f, then declare x *)
+      match find_element st f with
+      | None => (Err E_NameNotDefined, st)
+      | Some v =>
+          match declare st x v false None with             (* a copy of a method is the same method (same home) *)
+          | Some st' => (Ok, st')
+          | None => (Err E_NameRedeclared, st)
           end
       end
   | SNewCall x c m =>
@@ -600,13 +616,14 @@ Section Load.
         end
     end.
 
-  (* hoisting of definitions in evalStmtBlock: DeclareConstElement, then AddExportValue on the current module *)
+  (* hoisting of definitions in evalStmtBlock: DeclareConstElement, then AddExportValue on the current module
+     [id] (program_tail passes cur_id); a method records that module as its home *)
   Fixpoint declare_defs (st : vm) (id : nat) (ds : list def) : res * vm :=
     match ds with
     | [] => (Ok, st)
     | d :: r =>
         let '(x, v) := match d with
-                       | DFun n body => (n, VFun body)
+                       | DFun n body => (n, VFun id body)     (* compileFunction: SetModule(current module) *)
                        | DClass n ms => (n, VClass n ms)
                        end in
         match declare st x v true None with
